@@ -303,11 +303,16 @@ mutate(vh_rng *rg, struct rt_desc *d)
         /* an area that would reach up to or beyond 2^32 is not a layout of the address space (the 32-bit arithmetic
          * behind such bases - a zero-sized area at address 0 has "last word" 0xffffffff - is the harness's, not
          * a caller's): the step is taken back */
-        for (int a = 0; a < d->nareas; a++)
-            if ((uint64_t)d->area[a].base + d->area[a].size > 0xffffffffull) {
+        for (int a = 0; a < d->nareas; a++) {
+            const struct rt_area *ar = &d->area[a];
+            /* ... and so is a step (or the second of two steps) that leaves an area with neither callbacks nor
+             * memory nor size at address 0: that is the end-of-areas marker itself, the description ends there */
+            const int marker = ar->base == 0 && ar->size == 0 && (ar->window || (ar->custom && ar->noread && !ar->has_write));
+            if ((uint64_t)ar->base + ar->size > 0xffffffffull || marker) {
                 *d = before;
                 break;
             }
+        }
     }
 }
 
